@@ -119,7 +119,7 @@ CHECKS = {
    note="Trusted: clock stub. [decoder]. Known findings: RuntimeError for a negative numeric model value (optimized queries), AssertionError for numeric quantifiers without optimized queries.",
    design="§3 C02"),
  "C21": dict(level="other", technique="CrossHair (z3): solver-driven exhaustive enumeration of bounded derivation trees of the shipped grammars (mixed-radix tree codes) and of solver configurations; the real evaluator / shipped predicates / ISLaSolver vs. independent validators",
-   text=BOUNDED + "Decomposed: (adequacy) for every derivation tree of the shipped CSV / XML / reST grammar whose choice code is below 1536/16384 (left-to-right and right-to-left, identifiers and texts from macro sets) and every simple-TAR header "
+   text=BOUNDED + "Decomposed: (adequacy) for every derivation tree of the shipped CSV / XML / reST grammar whose choice code is below 1536/4096 (left-to-right and right-to-left, identifiers and texts from macro sets) and every simple-TAR header "
         "over 3 names x paddings 99/100/101 x type flag x link names x 4 checksum variants: if the shipped constraint evaluates to TRUE, an independent validator (csv module, expat, docutils, hand-written tar field/checksum check) accepts the string; "
         "(solve) for every configuration of 2/6 seeds x 5 cost settings x instantiation limits, the first 6/20 solutions of the real ISLaSolver on the shipped grammar+constraint are accepted. With C01 and C03 the adequacy part gives C21 for all seeds and cost settings within the tree bound.",
    note="Trusted: the four independent validators. [decoder]. Known findings: the XML constraints allow binding the reserved prefix xml; reST body text that docutils reads as markup ('::', underline-like lines, list/markup starts). Outside: full TAR, Scriptsize-C, csvlint, larger trees.",
